@@ -1037,6 +1037,7 @@ def run_filter_mode(A, nh, fcl, hit_a, hit_b, superseded=False):
             return out
         if models.self_field_of(I_, a) == A.L.idmap_field and frame.body.name == fcl:
             lookups.append(bi)
+            lookup_toks.add((bi, getattr(I_, "cur_token", None)))
             k = models.deref(I_, state, args[1])
             part = None
             if k[0] == "str":
@@ -1056,6 +1057,18 @@ def run_filter_mode(A, nh, fcl, hit_a, hit_b, superseded=False):
         return res
     I.models = dict(I.models)
     I.models["std::collections::HashMap::<K, V, S, A>::get"] = get_model
+    if hit_a is not None:
+        # the per-dependency key class: the part behind the separator is a job id, i.e. not empty
+        from domain import FALSE as _F
+        for nm in ("core::str::<impl str>::is_empty", "std::string::String::is_empty"):
+            orig_ie = I.models[nm]
+
+            def ie(I_, st_, fr_, bi_, t_, a_, sp_, _o=orig_ie):
+                s_ = models.str_of(I_, st_, a_[0])
+                if s_ is not None and s_[1] and all(p_[0] == "after" for p_ in s_[1]):
+                    return [(_F, st_)]
+                return _o(I_, st_, fr_, bi_, t_, a_, sp_)
+            I.models[nm] = ie
     if superseded:
         from domain import TRUE, FALSE
         I.models["std::cmp::PartialEq::eq"] = lambda I_, st_, fr_, bi_, t_, a_, sp_: [(FALSE, st_)]
@@ -1073,6 +1086,7 @@ def run_filter_mode(A, nh, fcl, hit_a, hit_b, superseded=False):
         I.models[ew] = ew_model
         I.models["petgraph::graphmap::GraphMap::<N, E, Ty>::contains_edge"] = lambda I_, st_, fr_, bi_, t_, a_, sp_: [(FALSE, st_)]
     lookups = []
+    lookup_toks = set()
     # the closure's environment: captured references are unknown; its argument is a (&String, &String) pair
     pair = adt("tuple", {0: (string([("histkey",)]), string([("hist", frozenset([("anykey",)]))]))})
     st = State()
@@ -1081,6 +1095,9 @@ def run_filter_mode(A, nh, fcl, hit_a, hit_b, superseded=False):
     env_fields = []
     cap_ty = body.locals[1]
     args = {1: closure_env(A, I, body, st), 2: ref(("cloarg",), ())}
+    if body.arg_count == 3:
+        # `retain(|key, value| ..)`: key and value are separate arguments
+        args = {1: args[1], 2: string([("histkey",)]), 3: string([("hist", frozenset([("anykey",)]))])}
     fr, out, col = I.analyze(body, args=args, state=st)
     rv = set()
     if out is not None:
@@ -1092,16 +1109,18 @@ def run_filter_mode(A, nh, fcl, hit_a, hit_b, superseded=False):
     # only what happens on the paths behind the id lookups belongs to the per-dependency key class
     region = None
     if hit_a is not None and lookups:
-        es = I.edges.get(fr.fid, set())
-        succ = {}
-        for (a_, b_) in es:
-            succ.setdefault(a_, []).append(b_)
-        # start behind the lookup that is executed last (both lookups are on every path of this class)
-        starts = set(lookups)
-        last = [b_ for b_ in starts if not any(b_ != o and o in reach_from(succ, b_) for o in starts)] or list(starts)
+        # per path partition (token) of the abstract run: what lies behind the lookup that is executed last
         region = set()
-        for b_ in last:
-            region |= reach_from(succ, b_)
+        toks = set(tk for (_b, tk) in lookup_toks)
+        for tk in toks:
+            es = set((a_, b_) for (a_, b_, t_) in getattr(I, "edges_tok", {}).get(fr.fid, set()) if t_ == tk)
+            succ = {}
+            for (a_, b_) in es:
+                succ.setdefault(a_, []).append(b_)
+            starts = set(b_ for (b_, t_) in lookup_toks if t_ == tk)
+            last = [b_ for b_ in starts if not any(b_ != o and o in reach_from(succ, b_) for o in starts)] or list(starts)
+            for b_ in last:
+                region |= reach_from(succ, b_)
 
     def in_region(v):
         if region is None:
